@@ -15,6 +15,8 @@ import (
 	"pgregory.net/rapid"
 
 	"github.com/Oneledger/protocol/action"
+	agov "github.com/Oneledger/protocol/action/governance"
+	"github.com/Oneledger/protocol/data/balance"
 	"github.com/Oneledger/protocol/data/governance"
 	"github.com/Oneledger/protocol/serialize"
 
@@ -275,6 +277,9 @@ func execute(h *run.H, tr *hist.Trace, draw func(w *hist.World) ([]hist.Step, []
 					}
 					if c.TxKind == "PROPOSAL_FINALIZE" && (at == "after-begin" || strings.HasPrefix(at, "after-tx:")) {
 						finalizeMidBlock = true
+						for _, ev := range r.Events {
+							st.feats["finalize-checked-mid-block:"+ev.Type]++
+						}
 					}
 				} else {
 					st.feats["rejected@"+bc]++
@@ -454,6 +459,9 @@ func TestC07(t *testing.T) {
 		var g *hist.Gen
 		blocks := 0
 		var script [][]txgen.Tx
+		scriptID := ""      // id of the scripted config-update proposal whose finalisation is checked mid-block
+		finalizeChecks := 0 // blocks in which such checks were injected
+		nscript := 0
 		// forged twins waiting for a later block: the valid original was already checked on the replica under test
 		var forgedLater []txgen.Tx
 		out, st := execute(h, tr, func(w *hist.World) ([]hist.Step, []txgen.Tx, bool) {
@@ -475,7 +483,13 @@ func TestC07(t *testing.T) {
 			}
 			if scripted {
 				if len(script) == 0 && u.N(3, "newscript") == 0 {
-					script = scriptProposal(rt, u, g)
+					if w.C.Height >= 2 && u.N(3, "cfgscript") == 0 {
+						nscript++
+						script, scriptID = scriptCfgProposal(u, g, nscript)
+						finalizeChecks = 0
+					} else {
+						script, scriptID = scriptProposal(rt, u, g), ""
+					}
 				}
 				if len(script) > 0 && u.N(3, "scriptwait") != 0 {
 					stage := script[0]
@@ -542,6 +556,18 @@ func TestC07(t *testing.T) {
 					}
 				}
 			}
+			// the scripted config-update proposal has been voted on: check its PROPOSAL_FINALIZE (any account may sign it)
+			// between BeginBlock and the block's transactions, where the update functions' side effects would matter
+			if scriptID != "" && len(script) == 0 && finalizeChecks < 3 && u.N(2, "cfgfinalize") == 0 {
+				finalizeChecks++
+				fu := w.G.U.Users[u.N(len(w.G.U.Users), "cfgfinalizer")]
+				k := u.N(len(txs)+1, "cfgfinalizeat")
+				bnd := "after-begin"
+				if k > 0 {
+					bnd = fmt.Sprintf("after-tx:%d", k-1)
+				}
+				push(bnd, txgen.ProposalFinalize(fu, govID(scriptID), fu.Addr, w.Fee, w.Memo()))
+			}
 			add("before-begin", -1)
 			add("after-begin", -1)
 			for k := range txs {
@@ -596,6 +622,39 @@ func scriptProposal(rt *rapid.T, u *hist.U, g *hist.Gen) [][]txgen.Tx {
 		votes = append(votes, txgen.ProposalVote(govID(id), v.Stake.Addr, v.Key.Addr, govOpinion(op), w.Fee, w.Memo(), v.Stake, v.Key))
 	}
 	return [][]txgen.Tx{{create, fund}, votes}
+}
+
+var cfgUpdates = []string{
+	"feeOption.minFeeDecimal:8", "feeOption.minFeeDecimal:8", "feeOption.minFeeDecimal:10", "onsOptions.perBlockFees:100000000000001",
+	"onsOptions.baseDomainPrice:1000000000000000000001", "stakingOptions.maturityTime:109300", "stakingOptions.topValidatorCount:8",
+}
+
+// scriptCfgProposal returns the stages of a config-update proposal ([create, fund to goal], [one yes vote per
+// genesis validator]) and its id.
+func scriptCfgProposal(u *hist.U, g *hist.Gen, n int) ([][]txgen.Tx, string) {
+	w := g.W
+	ui := u.N(len(w.G.U.Users), "cfg-proposer")
+	usr := w.G.U.Users[ui]
+	id := txgen.ProposalID(fmt.Sprintf("c07-cfg-%d-%s", n, w.P.Seed))
+	hgt := w.C.Height + 1
+	fundDL := hgt + 1 + int64(u.N(int(w.P.PropFundingDL), "cfg-fdl"))
+	voteDL := fundDL + w.P.PropVotingDL
+	goal := hist.ParseAmt([]byte(`"` + w.P.PropFundingGoal + `"`))
+	initial := hist.ParseAmt([]byte(`"` + w.P.PropInitialFunding + `"`))
+	cfg := cfgUpdates[u.N(len(cfgUpdates), "cfg-update")]
+	create := txgen.ProposalCreate(usr, agov.CreateProposal{ProposalID: id, ProposalType: governance.ProposalTypeConfigUpdate, Headline: "h", Description: "d",
+		Proposer: usr.Addr, InitialFunding: txgen.Amt("OLT", initial), FundingDeadline: fundDL, FundingGoal: balance.NewAmountFromBigInt(goal),
+		VotingDeadline: voteDL, PassPercentage: w.P.PropPassPct, ConfigUpdate: cfg}, w.Fee, w.Memo())
+	create.Note = fmt.Sprintf("%s:%d:%d:%d:%d", id, ui, fundDL, voteDL, int(governance.ProposalTypeConfigUpdate))
+	create.Tags = []string{"scripted", cfg}
+	fu := w.G.U.Users[u.N(len(w.G.U.Users), "cfg-funder")]
+	fund := txgen.ProposalFund(fu, id, fu.Addr, txgen.Amt("OLT", goal), w.Fee, w.Memo())
+	var votes []txgen.Tx
+	for i := range w.P.ValPower {
+		v := w.G.U.Vals[i]
+		votes = append(votes, txgen.ProposalVote(id, v.Stake.Addr, v.Key.Addr, governance.OPIN_POSITIVE, w.Fee, w.Memo(), v.Stake, v.Key))
+	}
+	return [][]txgen.Tx{{create, fund}, votes}, string(id)
 }
 
 func TestReplay(t *testing.T) {
